@@ -195,7 +195,49 @@ def run_newrows(case):
     return res
 
 
+def run_chained(case):
+    """ChainedDiscretizer(unknown_handling='drop'): unknown values are grouped with the missing ones; every row subset of a
+    10-row frame must give the rows of the full result (whether or not the subset holds a missing value)"""
+    import contextlib
+    import io
+
+    from AutoCarver.discretizers import ChainedDiscretizer, GroupedList
+
+    vals = ["a1", "a1", "a2", "b1", "b1", "b1", "??x", "??y", np.nan, "a1"]
+    X = pd.DataFrame({"h": pd.Series(vals, dtype=object), "other": list(range(10))})
+    res = {"violations": [], "sample": dict(case), "evaluations": 0}
+    with contextlib.redirect_stdout(io.StringIO()):
+        d = ChainedDiscretizer(["h"], 0.2, [GroupedList({"A": ["a1", "a2"], "B": ["b1"]})], unknown_handling="drop", copy=True)
+        X0 = X.copy(deep=True)
+        d.fit(X)
+        full = d.transform(X)
+    if not frame_equal(X, X0):
+        res["violations"].append({"kind": "fit-modifies-input", "what": "ChainedDiscretizer.fit/transform(copy=True) modified the caller's X"})
+    full_rows = out_rows(full, ["h"])
+    base_state = state_of(d)
+    n = 0
+    for mask in range(1, 2**10):
+        rows = [i for i in range(10) if mask >> i & 1]
+        with contextlib.redirect_stdout(io.StringIO()):
+            out = d.transform(X.iloc[rows])
+        n += 1
+        got = out_rows(out, ["h"])
+        if got != [full_rows[i] for i in rows]:
+            res["violations"].append({"kind": "not-row-wise:chained", "what": f"ChainedDiscretizer: transform of rows {rows} gives {got[:4]} but the rows of the full result are {[full_rows[i] for i in rows][:4]}"})
+            if len(res["violations"]) > 3:
+                break
+        if state_of(d) != base_state:
+            res["violations"].append({"kind": "state-changed", "what": f"ChainedDiscretizer: fitted state changed after transform of rows {rows}"})
+            break
+    res["evaluations"] = res["validated"] = res["transitions"] = n
+    res["outcome"] = "ChainedDiscretizer:drop" + (":VIOLATION" if res["violations"] else "")
+    res["nontrivial"] = "ChainedDiscretizer:drop"
+    return res
+
+
 def run_case(case):
+    if case.get("chained"):
+        return run_chained(case)
     if case.get("newrows"):
         return run_newrows(case)
     cls, cfg, seed = case["cls"], case["cfg"], case.get("seed", 0)
@@ -316,8 +358,9 @@ def run(tier, seed, rep):
     for cls in ("Discretizer", "QualitativeDiscretizer", "BinaryCarver"):
         for od in ("float", "str") if cls == "BinaryCarver" else ("str",):
             cases.append({"cls": cls, "cfg": {"dropna": True, "output_dtype": od}, "seed": seed, "newrows": True, "chunk": 0, "events": []})
+    cases.append({"cls": "ChainedDiscretizer", "cfg": {"dropna": False, "output_dtype": "str"}, "seed": seed, "chained": True, "chunk": 0, "events": []})
     rep.rule = (
-        "row-wise purity on unseen values: two categorical features sharing their vocabulary, every ordered pair of the 25 row types; "
+        "ChainedDiscretizer(unknown_handling='drop'): all 1023 row subsets; row-wise purity on unseen values: two categorical features sharing their vocabulary, every ordered pair of the 25 row types; "
         f"E2: for each class (3 carvers, Discretizer, Qualitative-, QuantitativeDiscretizer; copy=True; carvers x dropna x output_dtype, with and "
         f"without dev sample) fitted on a 10-row frame with quantitative / categorical / ordinal / numeric-category features, missing values and "
         f"two non-feature columns: every transform history of length 1 over the event alphabet (all {2**N-1} non-empty row subsets, all 120 "
